@@ -115,7 +115,7 @@ const DST2: &[u8] = b"QUUX-V01-CS02-with-BLS12381G2_XMD:SHA-256_SSWU_RO_";
 
 /// families of operations; every family has the variants 0 ("a"), 1 ("b": unrelated operands) and 2 ("a'": operands that share
 /// a partial key with a - the negated point, the negated field element, the same message under another tag)
-const FAMILIES: [&str; 19] = [
+const FAMILIES: [&str; 20] = [
     "G1 mul_assign",
     "G2 mul_assign",
     "G1 wNAF (context reused)",
@@ -135,6 +135,7 @@ const FAMILIES: [&str; 19] = [
     "batch_normalization G1/G2",
     "hash_to_field Fr / Fq2",
     "G1 sum_of_products (160 terms) + G2 sum_of_products (130 terms)",
+    "pairing_multi_product (17 pairs, repeated G2 elements)",
 ];
 
 fn variant_seed(v: usize) -> u64 {
@@ -390,6 +391,27 @@ fn run_op(fam: usize, v: usize) -> u64 {
                 o.raw(&x.c0);
                 o.raw(&x.c1);
             }
+        }
+        19 => {
+            // a product long enough for any internal batching / fan-out of the preparation
+            let mut ps = vec![];
+            let mut qs = vec![];
+            let mut p = G1::one();
+            p.mul_assign(k(s + 60));
+            let mut q = G2::one();
+            q.mul_assign(k(s + 61));
+            if neg {
+                q.negate();
+            }
+            for j in 0..17 {
+                ps.push(p.into_affine());
+                qs.push(q.into_affine());
+                p.double();
+                if j % 3 != 2 {
+                    q.double();
+                }
+            }
+            o.fq12(&Bls12::pairing_multi_product(&ps, &qs));
         }
         _ => {
             let sh = shared();
